@@ -180,7 +180,12 @@ def generate(notes: list[str]) -> list[str]:
             if isinstance(n, ast.Assign) and len(n.targets) == 1 and isinstance(n.targets[0], ast.Name) and n.targets[0].id == "in_progress" \
                     and isinstance(n.value, ast.ListComp) and len(n.value.generators) == 1 and not n.value.generators[0].ifs:
                 g = n.value.generators[0]
-                ip_expr = ast.unparse(n.value.elt).replace(ast.unparse(g.target), "x")
+                tn = g.target.id if isinstance(g.target, ast.Name) else None
+                elt = ast.parse(ast.unparse(n.value.elt), mode="eval").body
+                for m in ast.walk(elt):
+                    if isinstance(m, ast.Name) and m.id == tn:
+                        m.id = "x"
+                ip_expr = ast.unparse(elt)
                 ip_over = ast.unparse(g.iter)
     emit_str("inProgressWritten", "`to_serialized`: what is written for an in-progress invocation `x`", ip_expr)
     emit_str("inProgressWrittenOver", "`to_serialized`: the list the in-progress entries are taken from", ip_over)
@@ -237,6 +242,30 @@ def generate(notes: list[str]) -> list[str]:
     emit_list("eventAttemptFields", "fields of `EventAttempt`", _names(_fields(_find(ist, "EventAttempt", (ast.ClassDef,)))))
     emit_list("inProgressFields", "fields of `InProgressState`", _names(_fields(_find(ist, "InProgressState", (ast.ClassDef,)))))
     emit_list("waiterFields", "fields of `StepWorkerWaiter`", _names(_fields(_find(_parse(RS), "StepWorkerWaiter", (ast.ClassDef,)))))
+
+    # ---- which fields survive
+    def kwnames(c: ast.Call | None) -> list[str]:
+        return [MISSING] if c is None else [k.arg or "**" for k in c.keywords]
+
+    cw = _calls(to_ser, "SerializedEventAttempt")
+    cr = _calls(from_ser, "EventAttempt")
+    emit_list("queueWrittenNames", "`to_serialized`: the fields written for a queue entry", kwnames(cw[0] if len(cw) == 1 else None))
+    emit_list("queueReadNames", "`from_serialized`: the fields given to a rebuilt queue entry", kwnames(cr[0] if len(cr) == 2 else None))
+    ipf = _names(_fields(_find(ist, "InProgressState", (ast.ClassDef,))))
+    used = set()
+    if ip_expr is not None:
+        for n in ast.walk(ast.parse(ip_expr, mode="eval")):
+            if isinstance(n, ast.Attribute) and isinstance(n.value, ast.Name) and n.value.id == "x":
+                used.add(n.attr)
+    emit_list("inProgressDropped", "fields of `InProgressState` that `to_serialized` does not write",
+              [MISSING] if ip_expr is None or MISSING in ipf else ([f for f in ipf if f not in used] or ["<none>"]))
+    ww = _calls(to_ser, "SerializedWaiter")
+    wr_ = _calls(from_ser, "StepWorkerWaiter")
+    wf = _names(_fields(_find(_parse(RS), "StepWorkerWaiter", (ast.ClassDef,))))
+    wwn = kwnames(ww[0] if len(ww) == 1 else None)
+    emit_list("waiterNotWritten", "fields of `StepWorkerWaiter` for which `to_serialized` writes no field of that name",
+              [MISSING] if MISSING in wf or MISSING in wwn else ([f for f in wf if f not in wwn] or ["<none>"]))
+    emit_list("waiterReadNames", "`from_serialized`: the fields given to a rebuilt waiter", kwnames(wr_[0] if len(wr_) == 1 else None))
 
     # ---- context_types
     ct = _parse(CT)
